@@ -832,6 +832,30 @@ func (interp *Interpreter) ast(f ast.Node) (string, *node, error) {
 			st.push(addChild(&root, anc, pos, parenExpr, aNop), nod)
 
 		case *ast.RangeStmt:
+			if a.Tok == token.ASSIGN {
+				// The iteration values are assigned to existing variables or locations:
+				// range over new variables and assign them at the start of the body.
+				var lhs, rhs []ast.Expr
+				for i, e := range []*ast.Expr{&a.Key, &a.Value} {
+					if id, ok := (*e).(*ast.Ident); *e == nil || ok && id.Name == "_" {
+						continue
+					}
+					id := &ast.Ident{NamePos: (*e).Pos(), Name: "range#" + strconv.Itoa(i)}
+					lhs, rhs = append(lhs, *e), append(rhs, id)
+					*e = id
+				}
+				if len(lhs) > 0 {
+					a.Tok = token.DEFINE
+					assign := &ast.AssignStmt{Lhs: lhs, TokPos: a.TokPos, Tok: token.ASSIGN, Rhs: rhs}
+					a.Body.List = append([]ast.Stmt{assign}, a.Body.List...)
+				}
+			}
+			if id, ok := a.Value.(*ast.Ident); ok && id.Name == "_" {
+				a.Value = nil
+			}
+			if id, ok := a.Key.(*ast.Ident); ok && id.Name == "_" && a.Value == nil {
+				a.Key = nil // for _ = range x is for range x
+			}
 			// Insert a missing ForRangeStmt for AST correctness
 			n := addChild(&root, anc, pos, forRangeStmt, aNop)
 			r := addChild(&root, astNode{n, nod}, pos, rangeStmt, aRange)
